@@ -1,5 +1,6 @@
 import NeumannModel.Common.Proto
 import NeumannModel.Rel.Model
+import NeumannModel.Rel.VecModel
 /-
   Line-protocol driver for the relational model (C04).  One table at a time.
 
@@ -15,6 +16,7 @@ import NeumannModel.Rel.Model
     q router <limit|-> <off|-> <cond>     q routerl <limit|-> <cond>
     q countcol <col> <cond>  → ok <n> | err col_not_found       q sum <col> <cond> → <val>,<val> | -
     q min|max <col> <cond>   → <val> | none          (aggregate column `_id` = a name no row has)
+    q columnarw <cond>       → <ids> ; <ids>   (word-level vectorised path with the unspecified storage all-zero / all-junk)
     q aggs <col> <cond>      → countcol=<..> terms=<..> min=<..> max=<..>   (the four answers above in one line)
     evald <mx> <d> <id> <nvals> <val>... <cond>                                           → ok 0|1 | err too_deep
     qd <mx> select|count|columnar <cond>    qd <mx> limit <n> <off> <cond>                → <answer> | err too_deep
@@ -175,6 +177,9 @@ def relStep (t : Table) (line : String) : Table × String :=
       | some c => (t, toString (count t c)) | none => bad
   | "q" :: "columnar" :: crest => match parseWholeCond crest with
       | some c => (t, showNats (columnarSelect t c) ++ " | " ++ columnarPlan t c) | none => bad
+  | "q" :: "columnarw" :: crest => match parseWholeCond crest with
+      | some c => (t, showNats (columnarSelectW t Unspec.zeros c) ++ " ; " ++ showNats (columnarSelectW t Unspec.ones c))
+      | none => bad
   | "q" :: "limit" :: n :: off :: crest => match n.toNat?, off.toNat?, parseWholeCond crest with
       | some n, some off, some c => (t, showNats (selectLimit t c n off)) | _, _, _ => bad
   | "q" :: "cursor" :: b :: crest => match b.toNat?, parseWholeCond crest with
